@@ -165,3 +165,7 @@ def _isinstance(m, v, cls):
 
 attack.isinstance_hook = _isinstance
 attack.globs = dict(G, Iterable="Iterable")
+
+
+from pyvc.bounded import bounded_check
+rint.extra_checks = [bounded_check("bounded.c19", "generators-symrun", ["C19"])]
